@@ -91,7 +91,8 @@ def scenario_case(sc):
             an[ANN] = p["annot"]
         if p.get("ext") is not None:
             an[EXT] = p["ext"]["text"]
-        pod = {"name": p["name"], "ns": "ns", "annotations": an, "eni": bool(p.get("eni"))}
+        pod = {"name": p["name"], "ns": "ns", "annotations": an, "eni": bool(p.get("eni")),
+               "containers": p.get("containers", 1), "eni_at": p.get("eni_at", 0)}
         # the API server's watch cache still shows an earlier version of every second pod (its form before the binding / the
         # annotations of a previous incarnation): a daemon that accepts a cached read resolves other networks and arguments
         if sum(map(ord, p["name"])) % 2 == 0:
@@ -430,7 +431,10 @@ def gen_scenario(rng, ctx):
     for i in range(nct):
         annot, kind = gen_annot(rng, ctx, known)
         ctx.dist("annot:" + kind)
-        pods.append({"name": "pod%d" % i, "annot": annot, "eni": rng.random() < 0.25, "ext": gen_ext(rng)})
+        # the ENI-IP request may sit on any container of the pod (app first, side-cars after)
+        nc = rng.choice([1, 1, 2, 3])
+        pods.append({"name": "pod%d" % i, "annot": annot, "eni": rng.random() < 0.3, "ext": gen_ext(rng), "containers": nc,
+                     "eni_at": rng.randrange(nc)})
         containers["cid%d" % i] = {"pod": "pod%d" % i, "ifname": rng.choice(["eth0", "eth0", "eth0", "ens5"])}
     steps = []
     cids = sorted(containers)
@@ -454,6 +458,17 @@ def gen_scenario(rng, ctx):
 def exhaustive_scenarios(rng, ctx):
     """every failure pattern of ADD (with every rollback-DEL pattern) and of DEL for N = 1..4 networks"""
     out = []
+    # which network a pod without networks annotation gets: the ENI-IP request on ANY of its 1-3 containers selects exactly the
+    # ENIIPNetwork, no request selects the default networks
+    for nc in (1, 2, 3):
+        for at in list(range(nc)) + [None]:
+            conf = {"NetworkConf": [{"name": "net1", "type": "fakecni", "tag": "t0"}, {"name": "eni", "type": "fakecni", "tag": "t1"}],
+                    "DefaultNetworks": ["net1"], "ENIIPNetwork": "eni"}
+            out.append({"conf": conf, "confdir": [],
+                        "pods": [{"name": "pod0", "annot": None, "eni": at is not None, "ext": None, "containers": nc, "eni_at": at or 0}],
+                        "containers": {"cid0": {"pod": "pod0", "ifname": "eth0"}},
+                        "steps": [[{"cmd": "ADD", "cid": "cid0", "fa": [], "fd": []}], [{"cmd": "DEL", "cid": "cid0", "fd": []}]]})
+            ctx.dist("exhaustive:eni-request-on-container-%s-of-%d" % (at, nc))
     for n in range(1, 5):
         names = NAMES[:n]
         conf = {"NetworkConf": [{"name": nm, "type": "fakecni", "tag": "t%d" % i} for i, nm in enumerate(names)],
